@@ -108,6 +108,13 @@ func buildSchema() graphql.Schema {
 	return schema
 }
 
+// errCause: the application-specific cause given to WithCancelCause / WithTimeoutCause / WithDeadlineCause
+var errCause = errors.New("tenant budget exhausted (application cause)")
+
+func isTimer(cx string) bool {
+	return cx == "timeout" || cx == "timeoutCause" || cx == "parentTimeoutCause"
+}
+
 // manualCtx: a context whose "deadline passes" when the harness says so
 type manualCtx struct {
 	context.Context
@@ -282,7 +289,7 @@ func main() {
 	}
 	defer drv.Close()
 	schema := buildSchema()
-	run.Res.Rule = "query { f0 … f(n-1) } with n = 0..6 sequential top-level resolvers, each blocking on its own gate; every resolver fails or not and watches ctx.Done() or not; optional gate inside variable coercion (custom scalar ParseValue); the context ends at one point: never / before the call / while step k is blocked (every k) / after the call returned / concurrently with the release of step k (race); context kinds: cancel, harness-triggered deadline (custom Context, Err = DeadlineExceeded), real WithTimeout, deadline already past; entries graphql.Do and PlanQuery+ExecutePlan; the run is recorded as model actions and validated by the compiled Lean model, the returned Result is compared with the model's expected Result; non-trivial = n >= 1; distinct by the whole case"
+	run.Res.Rule = "query { f0 … f(n-1) } with n = 0..6 sequential top-level resolvers, each blocking on its own gate; every resolver fails or not and watches ctx.Done() or not; optional gate inside variable coercion (custom scalar ParseValue); the context ends at one point: never / before the call / while step k is blocked (every k) / after the call returned / concurrently with the release of step k (race); context kinds: cancel, harness-triggered deadline (custom Context, Err = DeadlineExceeded), real WithTimeout, deadline already past, and the same with an explicit cause (WithCancelCause, WithTimeoutCause, WithDeadlineCause — own and inherited from a parent context; the response must carry ctx.Err(), not context.Cause); entries graphql.Do and PlanQuery+ExecutePlan; the run is recorded as model actions and validated by the compiled Lean model, the returned Result is compared with the model's expected Result; non-trivial = n >= 1; distinct by the whole case"
 
 	one := func(c caseT) {
 		steps := c.N
@@ -324,12 +331,24 @@ func main() {
 		case "manualDeadline":
 			m := &manualCtx{Context: context.Background(), done: make(chan struct{})}
 			ctx, endCtx, ctxName = m, m.expire, "deadline"
-		case "timeout":
+		case "timeout", "timeoutCause", "parentTimeoutCause":
 			// created right before the call; the harness never ends it itself but waits for ctx.Done()
 			ctxName = "deadline"
 		case "pastDeadline":
 			cctx, cancel := context.WithDeadline(context.Background(), time.Now().Add(-time.Second))
 			ctx, endCtx, ctxName, cleanupCtx = cctx, func() {}, "deadline", cancel
+		case "pastDeadlineCause":
+			cctx, cancel := context.WithDeadlineCause(context.Background(), time.Now().Add(-time.Second), errCause)
+			ctx, endCtx, ctxName, cleanupCtx = cctx, func() {}, "deadline", cancel
+		case "cancelCause":
+			// cancelled with an application-specific cause: the response must still carry ctx.Err(), not the cause
+			cctx, cancel := context.WithCancelCause(context.Background())
+			ctx, endCtx, cleanupCtx = cctx, func() { cancel(errCause) }, func() { cancel(nil) }
+		case "parentCancelCause":
+			// the cause is set on a parent; the request context is a plain child of it
+			parent, cancelParent := context.WithCancelCause(context.Background())
+			cctx, cancel := context.WithCancel(parent)
+			ctx, endCtx, cleanupCtx = cctx, func() { cancelParent(errCause) }, func() { cancel(); cancelParent(nil) }
 		default:
 			cctx, cancel := context.WithCancel(context.Background())
 			ctx, endCtx, cleanupCtx = cctx, cancel, cancel
@@ -395,16 +414,27 @@ func main() {
 		}
 
 		q, vars := query(c)
-		if c.Point == -1 && c.Ctx != "timeout" {
+		if c.Point == -1 && !isTimer(c.Ctx) {
 			endCtx()
 			markCtx()
 		}
-		if c.Ctx == "timeout" {
+		if isTimer(c.Ctx) {
 			d := 4 * time.Millisecond
 			if c.Point == -1 {
 				d = time.Nanosecond
 			}
-			cctx, cancel := context.WithTimeout(context.Background(), d)
+			var cctx context.Context
+			var cancel context.CancelFunc
+			switch c.Ctx {
+			case "timeoutCause":
+				cctx, cancel = context.WithTimeoutCause(context.Background(), d, errCause)
+			case "parentTimeoutCause":
+				parent, cancelParent := context.WithTimeoutCause(context.Background(), d, errCause)
+				child, cancelChild := context.WithCancel(parent)
+				cctx, cancel = child, func() { cancelChild(); cancelParent() }
+			default:
+				cctx, cancel = context.WithTimeout(context.Background(), d)
+			}
 			ctx, endCtx, cleanupCtx = cctx, func() { <-cctx.Done() }, cancel
 			if c.Point == -1 {
 				<-cctx.Done()
@@ -512,8 +542,22 @@ func main() {
 		obs.LeftAtRet = len(lefts)
 		resultCanon := canonResult(res)
 		obs.Result = resultCanon
-		isCtxClass := res != nil && res.Data == nil && len(res.Errors) == 1 && len(res.Errors[0].Path) == 0 &&
-			(res.Errors[0].Message == context.Canceled.Error() || res.Errors[0].Message == context.DeadlineExceeded.Error())
+		// context-error class by shape (no data, one error without a path); that the error is exactly the context's
+		// own error (ctx.Err(): Canceled / DeadlineExceeded — not context.Cause) is checked separately below
+		isCtxClass := res != nil && res.Data == nil && len(res.Errors) == 1 && len(res.Errors[0].Path) == 0
+		ctxErrFault := ""
+		if isCtxClass {
+			want := ctx.Err()
+			got := res.Errors[0]
+			switch {
+			case want == nil:
+				ctxErrFault = fmt.Sprintf("the call returned a context-error shaped result (%q) although the context is not done", got.Message)
+			case got.Message != want.Error():
+				ctxErrFault = fmt.Sprintf("the response carries %q instead of exactly the context's error ctx.Err() = %q", got.Message, want.Error())
+			case got.OriginalError() == nil || !errors.Is(got.OriginalError(), want):
+				ctxErrFault = fmt.Sprintf("the response's original error %v is not the context's error %v (errors.Is)", got.OriginalError(), want)
+			}
+		}
 		returnedBlocked := obs.Returned && blockedAt >= 0 && !c.Race && !released[blockedAt]
 		if obs.Returned {
 			if isCtxClass {
@@ -550,14 +594,14 @@ func main() {
 				trace("finish")
 			}
 			trace("selectResult")
-			if (c.Point >= steps && c.Point != -2 && c.Ctx != "timeout") || ctxReallyEnded {
+			if (c.Point >= steps && c.Point != -2 && !isTimer(c.Ctx)) || ctxReallyEnded {
 				endCtx()
 				markCtx()
 			}
 		} else if len(lefts) == steps && obs.Executors == 0 {
 			trace("finish")
 		}
-		if c.Ctx == "timeout" && !ctxEnded {
+		if isTimer(c.Ctx) && !ctxEnded {
 			// the deadline is still ahead: nothing to record
 		}
 		cleanupCtx()
@@ -620,6 +664,8 @@ func main() {
 			bad = fmt.Sprintf("the observed run is not a run of the model: action %d %s is not enabled there (executor %s after %d steps, context %v)", *m.FailedAt, string(m.FailedAct), m.Executor, m.StepsDone, m.Ctx)
 		case !m.Returned:
 			bad = "harness fault: the recorded run does not contain the caller's return"
+		case ctxErrFault != "":
+			bad = ctxErrFault
 		case recanon(m.Expected) != resultCanon:
 			bad = "the returned Result is neither the complete normal response nor exactly the context error: it differs from the model's"
 		case obs.Executors != 0:
@@ -656,7 +702,7 @@ func main() {
 
 	// ---- enumeration: all n, all points, all context kinds, both entries; resolver kinds exhaustive for small n,
 	// seeded samples above
-	idx := 0
+	timerIdx := map[string]int{}
 	kindSets := func(n int, rg *hx.Rng, samples int) [][2][]bool {
 		var out [][2][]bool
 		if n <= 2 {
@@ -704,16 +750,19 @@ func main() {
 						if race && (point < 0 || point >= steps) {
 							continue
 						}
-						for _, cx := range []string{"cancel", "manualDeadline", "timeout", "pastDeadline"} {
-							if cx == "pastDeadline" && point != -1 {
+						for _, cx := range []string{"cancel", "manualDeadline", "timeout", "pastDeadline", "cancelCause", "parentCancelCause", "timeoutCause", "parentTimeoutCause", "pastDeadlineCause"} {
+							if (cx == "pastDeadline" || cx == "pastDeadlineCause") && point != -1 {
 								continue
 							}
-							if cx == "timeout" {
+							if (cx == "cancelCause" || cx == "parentCancelCause") && race && !run.Thorough() {
+								continue
+							}
+							if isTimer(cx) {
 								if race || point == -2 || point >= steps {
 									continue
 								}
-								idx++
-								if idx%timeoutEvery != 0 {
+								timerIdx[cx]++ // thin every real-timer kind separately
+								if timerIdx[cx]%timeoutEvery != 0 {
 									continue
 								}
 							}
